@@ -1,9 +1,9 @@
 package c11
 
 import (
-	"os"
 	"errors"
 	"fmt"
+	"os"
 	"sort"
 	"strings"
 	"time"
